@@ -215,6 +215,8 @@ theorem inv_step {s t : State} (I : Inv s) (h : Step s t) : Inv t := by
     · intro todo' ho'; cases ho'
   | spawnNo todo ho hok =>
     exact inv_frame I rfl rfl rfl (fun _ h => h) (fun h => by cases h) (fun _ h => by cases h) (fun h => ⟨h, id⟩)
+  | spawnFail todo ho hok =>
+    exact inv_frame I rfl rfl rfl (fun _ h => h) (fun h => by cases h) (fun _ h => by cases h) (fun h => ⟨h, id⟩)
   | notifyHit todo w wk ho hw hp =>
     exact inv_frame I rfl rfl (by simp) (fun i h => isFin_set hw (ne_fin_of_eq hp nofun) h)
       (fun h => by cases h) (fun _ h => by cases h) (fun h => ⟨h, id⟩)
@@ -470,6 +472,7 @@ theorem tinv_step {s t : State} (T : TInv s) (h : Step s t) : TInv t := by
     exact tinv_quiet T rfl (by simp [hands, List.filterMap_append, Wk.task?, Pc.task?])
       (by simp [rans, List.filterMap_append, Wk.ran?, Pc.ran?]) rfl (by rw [ho]; rfl) rfl rfl rfl rfl
   | spawnNo todo ho hok => exact tinv_quiet T rfl rfl rfl rfl (by rw [ho]; rfl) rfl rfl rfl rfl
+  | spawnFail todo ho hok => exact tinv_quiet T rfl rfl rfl rfl (by rw [ho]; rfl) rfl rfl rfl rfl
   | notifyHit todo w wk ho hw hp =>
     exact tinv_idle_worker T hw (by rw [task?_of_pc hp]; rfl) rfl (by rw [ran?_of_pc hp]; rfl) rfl rfl rfl rfl
       (by rw [ho]; rfl) rfl rfl rfl rfl
@@ -744,6 +747,7 @@ theorem pinv_step {s t : State} (P : PInv s) (h : Step s t) : PInv t := by
   | start tk todo ho => exact pinv_out (fun _ h => by cases h) (fun _ _ h => by cases h)
   | spawnYes todo ho hok => exact pinv_out (fun _ h => by cases h) (fun _ _ h => by cases h)
   | spawnNo todo ho hok => exact pinv_out (fun _ h => by cases h) (fun _ _ h => by cases h)
+  | spawnFail todo ho hok => exact pinv_out (fun _ h => by cases h) (fun _ _ h => by cases h)
   | notifyHit todo w wk ho hw hp => exact pinv_out (fun _ h => by cases h) (fun _ _ h => by cases h)
   | notifyMiss todo ho hn => exact pinv_out (fun _ h => by cases h) (fun _ _ h => by cases h)
   | clear todo ho => exact pinv_out (fun _ h => by cases h) (fun _ _ h => by cases h)
